@@ -2,7 +2,7 @@
 SPECIFICATION TSpec
 CONSTANTS
   Devs = {"FirstFromOnly"}
-  Families = {"A", "B", "C", "D", "E", "F", "G", "H"}
+  Families = {"A", "B", "C", "D", "E", "F", "G", "H", "I"}
   Gen = FALSE
 CHECK_DEADLOCK FALSE
 POSTCONDITION Post
